@@ -20,6 +20,35 @@ violation is not defined by the reference model.
 from . import core
 
 
+def hidden_shape(obj, skip=()):
+    """Generic fingerprint of the containers an implementation object holds, for canonical keys.
+
+    A canonical key must separate states with different futures.  The fields a check knows about are in its key explicitly; this
+    adds, for EVERY attribute of `obj` that is a container, its size and (for dicts/sets of plain values) its keys, and for every
+    other attribute whether it is None - so that a lookup table, cache or index the library builds lazily (or will build after a
+    later change) keeps two histories apart when it differs.  Finer keys only cost time, they never hide a state."""
+    out = []
+    for name, v in sorted(vars(obj).items()):
+        if name in skip:
+            continue
+        if isinstance(v, dict):
+            try:
+                ks = tuple(sorted(k for k in v if isinstance(k, (int, float, str, bool, type(None)))))
+            except TypeError:
+                ks = tuple(sorted(repr(k) for k in v))
+            out.append((name, "d", len(v), ks))
+        elif isinstance(v, (set, frozenset)):
+            try:
+                out.append((name, "s", len(v), tuple(sorted(v))))
+            except TypeError:
+                out.append((name, "s", len(v)))
+        elif isinstance(v, (list, tuple)):
+            out.append((name, "l", len(v)))
+        elif v is None:
+            out.append((name, "n"))
+    return tuple(out)
+
+
 class BfsResult:
     def __init__(self):
         self.states = 0
